@@ -470,6 +470,8 @@ def churn_state(gen, inst, w, rnd):
     if gen == 5:
         a["status"]["mode_code"] = rnd.choice([0, 1, 2, 3, 4, 8, 9])
         a["status"]["power_code"] = rnd.choice([0, 1, 2, 3, 5])
+        # the "a timer is set" flag of the AC status comes and goes on its own
+        a["status"]["timer"] = not a["status"].get("timer", False)
     else:
         a["status"]["mode_code"] = rnd.choice([0, 1, 2, 3, 4, 8, 9])
         a["status"]["power"] = rnd.choice(["off", "on"])
